@@ -167,6 +167,19 @@ func (h *NFSProcedureHandler) handleCreate(body io.Reader, reply *RPCReply, auth
 		return reply, nil
 	}
 
+	// The new file belongs to the caller's effective identity (or to the ids an
+	// effective root asked for), exactly as MKDIR and SYMLINK do it.
+	if err := h.server.handler.fs.Chown(path.Join(node.path, name), int(newUID), int(newGID)); err != nil {
+		if h.server.options.Debug {
+			h.server.logger.Printf("CREATE: Chown failed for '%s': %v", path.Join(node.path, name), err)
+		}
+	} else {
+		newNode.mu.Lock()
+		newNode.attrs.Uid = newUID
+		newNode.attrs.Gid = newGID
+		newNode.mu.Unlock()
+	}
+
 	dirPostAttrs, err := h.server.handler.GetAttr(node)
 	if err != nil {
 		return nfsErrorWithWcc(reply, mapError(err)), nil
